@@ -243,6 +243,16 @@ VERUS_UNITS = {
             ('ensures final(self).reactors@ == old(self).reactors@.push((rtype, handle)),', 'ensures final(self).reactors@ == seq![(rtype, handle)] + old(self).reactors@,', 'EntityReactors::insert'),
         ],
     },
+    'removal_dispatch': {
+        'template': 'removal_dispatch.rs.tpl',
+        'owners': [(r'ReactCache::schedule_removal_reactions$', ['C08', 'C01']), (r'ReactCache::vec_default_thunk$', ['C08'])],
+        'negctl': [
+            # the commands must name the kind Removal of THAT checker's component type
+            ('let rt = EntityReactionType::Removal(t);', 'let rt = EntityReactionType::Mutation(t);', 'ReactCache::schedule_removal_reactions'),
+            # every reported entity must be reacted to, not only the first
+            ('if b.len() == 0 { w } else { buf_world(ent_world(w, b[0], t, comp), b.skip(1), t, comp) }', 'if b.len() == 0 { w } else { ent_world(w, b[0], t, comp) }', 'ReactCache::schedule_removal_reactions'),
+        ],
+    },
     'dispatch': {
         'template': 'dispatch.rs.tpl',
         'owners': [(r'schedule_entity_reaction_impl$', ['C01', 'C14']), (r'ReactCache::schedule_(insertion|mutation)_reaction$', ['C01', 'C14'])],
@@ -308,7 +318,7 @@ ENVNOTE = 'Kani tier runs the real crate against the assumed Bevy of /verif/env 
 
 PROPS = {
     'C01': dict(category='other', design_ref='DESIGN.md 5/C01',
-        text='Registration tables as abstract maps key -> list: Verus proves on the verbatim text, for tables and lists of ANY size, that each of the 7 ReactCache::register_* functions appends exactly one handle to exactly the list named by (kind, key) and leaves every other list of every table unchanged, and that schedule_resource_mutation_reaction / schedule_broadcast_reaction queue exactly one command per entry of the trigger type\'s list, in order, with the right reactor id (and nothing for an empty list). schedule_insertion_reaction / schedule_mutation_reaction / schedule_entity_reaction_impl are likewise proved for per-entity and type-wide lists of any length (Verus, verbatim, against an assumed sequence stand-in for Vec and the assumed contract of EntityReactors::iter_rtype). schedule_despawn_reactions (Verus, verbatim, any number of reports / lists of any length): one Despawn command per handle registered for a reported entity, in list order, the list consumed by the first report, nothing for entities without list. Kani discharges on the real code, for bounded shapes, the functions outside Verus\' subset: EntityReactors::{insert,remove,count,iter_rtype,iter_reactors} (lists L<=3, all contents), a restatement of schedule_entity_event_reaction (itself proved by Verus for lists of any length, unit dispatch_event), a restatement of ReactCache::revoke_* on the compiled code (the five revoke_* themselves are proved by Verus for lists of any length: neighbours keep their entries), and restates schedule_{insertion,mutation}_reaction on the compiled code (entity-scoped + type-wide listeners, wrong-kind / wrong-type entries present and not fired). Lemma L3 (Verus) lifts register/revoke contracts to arbitrary histories on one key. Level other: the schedule_* functions with Query access are bounded stand-ins; that Bevy applies the scheduling command in-line is runner/queue semantics (C02/C09, not applicable).',
+        text='Registration tables as abstract maps key -> list: Verus proves on the verbatim text, for tables and lists of ANY size, that each of the 7 ReactCache::register_* functions appends exactly one handle to exactly the list named by (kind, key) and leaves every other list of every table unchanged, and that schedule_resource_mutation_reaction / schedule_broadcast_reaction queue exactly one command per entry of the trigger type\'s list, in order, with the right reactor id (and nothing for an empty list). schedule_insertion_reaction / schedule_mutation_reaction / schedule_entity_reaction_impl are likewise proved for per-entity and type-wide lists of any length (Verus, verbatim, against an assumed sequence stand-in for Vec and the assumed contract of EntityReactors::iter_rtype). schedule_removal_reactions (Verus, unbounded): per checker and reported entity, exactly the entity-scoped Removal registrations of that component type then the type-wide ones, nothing else. schedule_despawn_reactions (Verus, verbatim, any number of reports / lists of any length): one Despawn command per handle registered for a reported entity, in list order, the list consumed by the first report, nothing for entities without list. Kani discharges on the real code, for bounded shapes, the functions outside Verus\' subset: EntityReactors::{insert,remove,count,iter_rtype,iter_reactors} (lists L<=3, all contents), a restatement of schedule_entity_event_reaction (itself proved by Verus for lists of any length, unit dispatch_event), a restatement of ReactCache::revoke_* on the compiled code (the five revoke_* themselves are proved by Verus for lists of any length: neighbours keep their entries), and restates schedule_{insertion,mutation}_reaction on the compiled code (entity-scoped + type-wide listeners, wrong-kind / wrong-type entries present and not fired). Lemma L3 (Verus) lifts register/revoke contracts to arbitrary histories on one key. Level other: the schedule_* functions with Query access are bounded stand-ins; that Bevy applies the scheduling command in-line is runner/queue semantics (C02/C09, not applicable).',
         note=ENVNOTE + '; maps = finite partial maps (hashing not modelled); Vec as an assumed sequence stand-in in units cache_revoke / dispatch; tuple trigger bundles (macro-generated) not under contract',
         explanation='register_* x7, revoke_* x5, 4 schedule fns and the 11 trigger types proved unbounded (Verus, verbatim); EntityReactors and entity-event dispatch bounded (Kani); history lemma L3'),
     'C03': dict(category='other', design_ref='DESIGN.md 5/C03',
@@ -332,9 +342,9 @@ PROPS = {
         note=ENVNOTE + '; Arc/channel: sequential semantics; in unit gc the channel receiver and World::resource are given exclusive (&mut) access in place of crossbeam\'s interior mutability',
         explanation='one clone per effective registration, one drop per revocation, in-flight handle dropped at end, exact ref-count of the signal (Kani, bounded), one collection drains every pending request (Verus, unbounded); collection points in the runner not covered'),
     'C08': dict(category='other', design_ref='DESIGN.md 9.5',
-        text='Despawn half, function level, all proved by Verus on verbatim text for tables / lists / report queues of ANY size: DespawnTrigger::register queues the registration only for a live entity; the register_despawn_reactor system (closure lifted, rule 16) stores the handle iff the entity is alive when the command is applied, never replaces an existing DespawnTracker (replacing it would report a despawn that did not happen) and wires a new tracker to this cache\'s channel for this entity; ReactCache::register_despawn_reactor appends exactly this handle to the entity\'s list; schedule_despawn_reactions consumes the reports front to back until the channel is empty, queues exactly ONE Despawn command per handle registered for a reported entity, naming that entity and carrying the handle, and REMOVES the list - so a second report of the same entity, or a later poll, fires nothing (at most once per watched entity) and an unreported entity fires nothing; schedule_removal_and_despawn_reactors (closure lifted) polls removals, then despawns, then flushes the queued reaction commands before returning; syscommand_runner polls at its entry, on every abort path and - at EVERY level of the tree - after the run and its garbage collection and before any postponed command is replayed (clause E), so a despawn caused inside a tree is reacted to inside that tree. Removal half: track_removals installs exactly one checker per component type ever watched and (Entity)RemovalTrigger::register / register_removal_reactor store exactly one handle in the table their token names (Verus); the per-entity half of its dispatch is schedule_entity_reaction_impl (Verus, unit dispatch). NOT covered: schedule_removal_reactions itself (iter_mut over the checkers, boxed RemovedComponents readers: outside the verifier\'s subset, Kani over cost), detection (Bevy: RemovedComponents, component drop on despawn), the Last-schedule poll of the plugin, and whole histories (re-insert between polls).',
-        note=ENVNOTE + '; channel receiver modelled with &mut access; Vec stand-in for drain(..); removal dispatch and detection assumed',
-        explanation='despawn registration, dispatch (exactly one command per handle, list consumed), poll order and poll points in the runner proved (Verus, unbounded); removal registration proved, removal dispatch and detection not covered'),
+        text='Despawn half, function level, all proved by Verus on verbatim text for tables / lists / report queues of ANY size: DespawnTrigger::register queues the registration only for a live entity; the register_despawn_reactor system (closure lifted, rule 16) stores the handle iff the entity is alive when the command is applied, never replaces an existing DespawnTracker (replacing it would report a despawn that did not happen) and wires a new tracker to this cache\'s channel for this entity; ReactCache::register_despawn_reactor appends exactly this handle to the entity\'s list; schedule_despawn_reactions consumes the reports front to back until the channel is empty, queues exactly ONE Despawn command per handle registered for a reported entity, naming that entity and carrying the handle, and REMOVES the list - so a second report of the same entity, or a later poll, fires nothing (at most once per watched entity) and an unreported entity fires nothing; schedule_removal_and_despawn_reactors (closure lifted) polls removals, then despawns, then flushes the queued reaction commands before returning; syscommand_runner polls at its entry, on every abort path and - at EVERY level of the tree - after the run and its garbage collection and before any postponed command is replayed (clause E), so a despawn caused inside a tree is reacted to inside that tree. Removal half: track_removals installs exactly one checker per component type ever watched and (Entity)RemovalTrigger::register / register_removal_reactor store exactly one handle in the table their token names (Verus); schedule_removal_reactions (Verus, verbatim modulo the stated loop normalizations, any number of checkers / reported entities / list lengths) polls every checker once, in table order, and for the entities a checker reports queues - in report order - exactly one EntityReaction(Removal(that checker\'s component type)) per entity-scoped registration of that kind on the reported entity followed by one per type-wide removal registration of that component type, each naming the reported entity, and nothing else (what a checker reports is an uninterpreted function: detection is Bevy\'s). NOT covered: detection itself (Bevy: RemovedComponents, component drop on despawn), collect_component_removals (iterator adapter chain), the Last-schedule poll of the plugin, and whole histories (re-insert between polls).',
+        note=ENVNOTE + '; channel receiver modelled with &mut access; Vec stand-in (drain, &mut iteration); what a removal checker reports is uninterpreted (detection assumed)',
+        explanation='despawn registration, despawn and removal dispatch (exactly one command per registration), poll order and poll points in the runner proved (Verus, unbounded); detection (Bevy) and histories between polls not covered'),
     'C10': dict(category='other', design_ref='DESIGN.md 5/C10 + 9.5',
         text='Kani discharges on the real AutoDespawner / AutoDespawnSignal (real std::sync::Arc, assumed FIFO channel) that for 1..3 clones dropped one by one, with the request channel polled after every drop, the prepared entity is requested for despawn exactly once, at the drop of the LAST clone, never while a clone exists, and with the right entity id (symbolic); AutoDespawner::new creates an UNBOUNDED request channel (no request can be lost or blocked however many are pending), and a repeated setup_auto_despawn keeps the existing despawner, so signals prepared earlier stay connected. Lemma L4 (Verus) generalises the count to k clones over the assumed Arc contract. Verus proves on the verbatim garbage_collect_entities (modulo extraction rule 15: `.ok().map(|e| e.despawn_recursive())` read as `if let Ok(e) = .. { e.despawn_recursive(); }`), for ANY number of pending requests including requests enqueued by the despawns themselves: on return the request channel is empty (G1: the collector never stops early), every entity whose request was pending on entry is not alive (G2), a request for an entity that is already gone is skipped and changes nothing - hence a second collection right after the first does nothing (idempotence) - and no entity is revived (G3); that despawn_recursive takes the descendants along is Bevy\'s contract (assumed). In that unit crossbeam\'s interior mutability (`&self` receiver) is modelled as exclusive access to the same FIFO state. Threads are not verified at all (Kani has no thread support): every concurrent history of drops is ASSUMED equivalent to a sequential one (Arc\'s atomic count, linearizable channel).',
         note=ENVNOTE + '; threads not verified; termination of the collection loop not verified; channel receiver modelled with &mut access (unit gc)',
